@@ -389,6 +389,33 @@ def rel : Op → Val → Val → Option Bool
   | .absent, r, _ => some (!truthy r)
 end Spec
 
+/-! ### clauses without an op: `value: present | not-null | absent | empty` -/
+
+/-- `type_value_rewrite`: the key of `atomic_op_map` each word is sent to -/
+def valuelessOp (word : String) : Option Op :=
+  if word = "present" || word = "not-null" then some .present
+  else if word = "absent" || word = "empty" then some .absent
+  else none
+
+def isNull : Val → Bool
+  | .atom .null => true
+  | _ => false
+
+namespace Spec
+/-- Custodian's `ValueFilter.match` for the four words: `absent` ⇔ the attribute is None, `present` ⇔ it
+is not None, `not-null` ⇔ it is truthy, `empty` ⇔ it is falsy -/
+def word (w : String) (r : Val) : Option Bool :=
+  if w = "present" then some (!isNull r)
+  else if w = "absent" then some (isNull r)
+  else if w = "not-null" then some (truthy r)
+  else if w = "empty" then some (!truthy r)
+  else none
+end Spec
+
+/-- an attribute that is there but falsy (`""`, `0`, `false`, `[]`): where `present`/`absent` and
+`not-null`/`empty` differ (known finding `present_is_truthiness`) -/
+def falsyNonNull (r : Val) : Bool := !truthy r && !isNull r
+
 /-! ### templates -/
 
 inductive Hole where | h0 | h1
